@@ -21,7 +21,10 @@ One cycle (traffic_cycle):
     waited for: the rest of its session is not sent;
   * sending is paced by the collector's own UDPCount (a chunk is sent when the previous one has been counted), so the
     socket buffer cannot overflow; a cycle in which UDPCount stays short and the kernel reports drops for the socket gives
-    no verdict.
+    no verdict;
+  * thorough tier: behind everything else a burst at full speed (half as many datagrams again, drawn from the stream's
+    datagrams that leave the template cache alone and re-classified by the reference in that position). Loss is expected
+    there (socket buffer, 1000-slot queues), so only the halves of the demands that survive loss are made.
 
 Demands, by property (each finding carries the property it belongs to):
   C13  per protocol at quiescence UDPCount = datagrams sent, DecodedCount = datagrams the reference counts as decoded,
@@ -38,7 +41,7 @@ Demands, by property (each finding carries the property it belongs to):
 No verdict (statistic `skipped:<reason>`): the binary could not be started, the statistics API did not answer, datagrams
 were lost on the way in, the reference could not be computed.
 """
-import json, os, random, re, select, shutil, signal, socket, struct, subprocess, threading, time, urllib.request
+import json, os, random, re, shutil, signal, socket, struct, subprocess, threading, time, urllib.request
 import check as C
 import e2e
 
@@ -81,43 +84,52 @@ class Sink:
         self.conns = {}
         self.closed_conns = 0
         self.stop = False
+        self.error = None
         self.th = threading.Thread(target=self._run, daemon=True)
         self.th.start()
 
     def _run(self):
+        # epoll, not select(): a run holds far more than 1024 descriptors (twelve cycles, a socket per exporter address)
+        import selectors
+        sel = selectors.DefaultSelector()
+        sel.register(self.srv, selectors.EVENT_READ)
         nconn = 0
-        while not self.stop:
-            try:
-                rd, _, _ = select.select([self.srv] + list(self.conns), [], [], 0.05)
-            except (OSError, ValueError):
-                break
-            for s in rd:
-                if s is self.srv:
-                    try:
-                        c, _ = self.srv.accept()
-                    except OSError:
+        try:
+            while not self.stop:
+                for key, _ in sel.select(timeout=0.05):
+                    s = key.fileobj
+                    if s is self.srv:
+                        try:
+                            c, _ = self.srv.accept()
+                        except OSError:
+                            continue
+                        self.conns[c] = [nconn, b""]
+                        sel.register(c, selectors.EVENT_READ)
+                        nconn += 1
                         continue
-                    self.conns[c] = [nconn, b""]
-                    nconn += 1
-                    continue
-                try:
-                    data = s.recv(1 << 20)
-                except OSError:
-                    data = b""
-                st = self.conns[s]
-                if not data:
-                    del self.conns[s]
-                    s.close()
-                    self.closed_conns += 1
-                    continue
-                buf = st[1] + data
-                if b"\n" in buf:
-                    parts = buf.split(b"\n")
-                    st[1] = parts.pop()
-                    with self.lock:
-                        self.lines += [(st[0], p) for p in parts]
-                else:
-                    st[1] = buf
+                    try:
+                        data = s.recv(1 << 20)
+                    except OSError:
+                        data = b""
+                    st = self.conns[s]
+                    if not data:
+                        sel.unregister(s)
+                        del self.conns[s]
+                        s.close()
+                        self.closed_conns += 1
+                        continue
+                    buf = st[1] + data
+                    if b"\n" in buf:
+                        parts = buf.split(b"\n")
+                        st[1] = parts.pop()
+                        with self.lock:
+                            self.lines += [(st[0], p) for p in parts]
+                    else:
+                        st[1] = buf
+        except Exception as e:          # the harness's own failure: the cycle gives no verdict (Cycle.no_progress)
+            self.error = repr(e)
+        finally:
+            sel.close()
 
     def count(self):
         with self.lock:
@@ -443,7 +455,14 @@ class Cycle:
         if queued:
             self.fail("stall", "no progress of UDPCount / DecodedCount for %.0f s while datagrams are queued (%s); %s" % (NO_PROGRESS_S, "; ".join(queued), txt))
         elif name == "lines":
-            self.fail("missing", (self.missing() or txt) + " (%d of %d lines after %.0f s without progress %s)" % (have, want, NO_PROGRESS_S, what))
+            if self.sink.error or not self.sink.th.is_alive():
+                raise Abort("sink-failed")          # the harness's sink thread has ended: no verdict
+            m = self.missing() or txt
+            # what the collector logged about the exporter of the missing payload
+            ag = re.search(r'"AgentID":"([0-9.]+)"', m)
+            said = [l[-160:] for l in self.vf.log().split("\n") if ag and (ag.group(1) + " ") in l][:4]
+            self.fail("missing", "(%d of %d lines after %.0f s without progress %s) %s%s" % (have, want, NO_PROGRESS_S, what, m,
+                                                                                         (" -- collector log: " + " | ".join(said)) if said else ""))
         else:
             self.fail("count-short", txt + (" (the kernel reports no drop for the socket and its receive queue is empty)" if name == "UDPCount" else
                                             " (reference: the real decoder in-process, same order)"))
@@ -464,6 +483,10 @@ class Cycle:
                         it = by[p][pos[p]]
                         s = socks.get(it.ip)
                         if s is None:
+                            if len(socks) >= 128:           # a socket per exporter address, but not thousands of them at a time
+                                for x in socks.values():
+                                    x.close()
+                                socks.clear()
                             s = socks[it.ip] = socket.socket(socket.AF_INET, socket.SOCK_DGRAM)
                             s.bind((it.ip, 0))
                         if it.cls == "d":
@@ -788,21 +811,24 @@ def run_cycles(tier, seed):
             for i in range(ncyc):
                 params = dict(tier_params(tier), **(forced[i] if i < len(forced) else {}))
                 jobs.append((i, params, ex.submit(traffic_cycle, i, seed, binary, params)))
-            for i, params, f in jobs:
-                outcome, findings, sample = f.result()
-                reruns = 0
-                # a verdict that depends on elapsed time or load must reproduce: the same cycle again, alone, up to twice
-                if findings and all(c in TIMED for c, _ in findings):
-                    cls0 = findings[0][0]
-                    for _ in range(2):
-                        reruns += 1
-                        o2, f2, s2 = traffic_cycle(i, seed, binary, params)
-                        if not (f2 and any(c == cls0 for c, _ in f2)):
-                            outcome, findings, sample = o2 if not f2 else "ok", [], s2
-                            if f2:      # failed differently: not a reproduction of the first verdict, and not a verdict of its own
-                                outcome = "skipped:unstable"
-                            break
-                out.append((i, params, outcome, findings, sample, reruns))
+            results = [(i, params) + tuple(f.result()) for i, params, f in jobs]
+        # a verdict that depends on elapsed time or on the load of the machine must reproduce: when all cycles have ended, the same
+        # cycle is run again, alone, up to twice; the verdict stands only if it shows both times (a real stall, leak or loss of a
+        # message does so every time). What the re-run shows instead is not reported either: `skipped:not-reproduced`
+        confirmed = set()       # once a class has reproduced for one cycle the other cycles of that class are not run again
+        for i, params, outcome, findings, sample in results:
+            reruns = 0
+            if findings and all(c in TIMED for c, _ in findings) and findings[0][0] not in confirmed:
+                cls0 = findings[0][0]
+                for _ in range(2):
+                    reruns += 1
+                    o2, f2, s2 = traffic_cycle(i, seed, binary, params)
+                    if not any(c == cls0 for c, _ in f2):
+                        outcome, findings, sample = "skipped:not-reproduced", [], dict(s2, first_verdict="fail:%s %s" % (cls0, findings[0][1][:700]))
+                        break
+                else:
+                    confirmed.add(cls0)
+            out.append((i, params, outcome, findings, sample, reruns))
         _RUNS[(tier, seed)] = {"built": True, "cycles": out, "wall_s": round(time.time() - t0, 1)}
         return _RUNS[(tier, seed)]
 
@@ -810,12 +836,15 @@ def run_cycles(tier, seed):
 DEMANDS = {
     "C01": "after the stream: alive, answers /flow, decodes a fresh template + data record (IPFIX, NetFlow v9), a NetFlow v5 and an sFlow "
            "datagram (DecodedCount moves, the four JSON lines arrive at the sink), stderr free of panic / fatal error / runtime error, SIGTERM -> exit status 0",
-    "C02": "VmHWM after the stream <= 200 MB + (4 x 1000 queue slots + 2 x workers) x read-buffer size; /sys MemTotalAlloc delta <= 64 MiB + 16 KiB per "
-           "datagram + 200 B per octet (excess with zero-length field specifiers in the stream: K4 fail:amplification); no counter standstill "
-           "of 10 s with datagrams queued (fail:stall); probes answered within 5 s; time / memory verdicts must reproduce twice",
+    "C02": "VmHWM after the stream (thorough: and after the burst) <= 200 MB + (4 x 1000 queue slots + 2 x workers) x read-buffer size; /sys "
+           "MemTotalAlloc delta <= 8 MiB + 8 KiB per datagram + 100 B per octet + 8 KiB per statistics request + 64 KiB/s; an excess is K4 "
+           "fail:amplification only as far as the decoded fields that consume no octet (k4_extra_fields, counted by the reference) explain it at "
+           "1 KiB each, else fail:rss / fail:alloc; no counter standstill of 10 s with datagrams queued (fail:stall); probes answered within "
+           "5 s (fail:latency); time / memory verdicts must reproduce twice when the cycle is run again alone",
     "C13": "per protocol at quiescence UDPCount = datagrams sent, DecodedCount = datagrams the in-process reference counts as decoded, lines at "
            "the sink = reference payloads as multisets (none invented, none twice, none missing); phase 0 one protocol at a time: no counter of "
-           "another protocol moves",
+           "another protocol moves; thorough, burst at full speed (loss expected): UDPCount moves by <= sent, DecodedCount by <= min(received, "
+           "decodable sent) and >= received - undecodable sent, every line is a reference payload, at most as often as sent",
 }
 
 
@@ -828,7 +857,7 @@ def traffic_cycles(pid, tier, seed):
         r.oracle_fail.append({"kind": "e2e-traffic", "seed": seed, "session": ["build"], "verdict": "fail:build vflow binary does not build: " + run["err"][-300:], "impl": ""})
         r.summary = {"built": False}
         return r
-    agg = {"datagrams": 0, "octets": 0, "published": 0, "vmhwm_kb_max": 0, "total_alloc_max": 0, "alloc_share_of_bound_max": 0.0,
+    agg = {"datagrams": 0, "octets": 0, "published": 0, "burst_datagrams": 0, "burst_published": 0, "k4_extra_fields": 0, "vmhwm_kb_max": 0, "total_alloc_max": 0, "alloc_share_of_bound_max": 0.0,
            "probe_latency_s_max": 0.0, "stream_s_max": 0.0, "udp_queue_peak": 0, "reruns": 0, "classes": {}, "sent": {p: 0 for p in PROTOS},
            "decoded": {p: 0 for p in PROTOS}}
     for i, params, outcome, findings, sample, reruns in run["cycles"]:
@@ -852,8 +881,13 @@ def traffic_cycles(pid, tier, seed):
         r.stats[line] = r.stats.get(line, 0) + 1
         if len(r.samples) < 3:
             r.samples.append({"case": case[:600], "impl": line})
-        for k in ("datagrams", "octets", "published"):
+        for k in ("datagrams", "octets", "published", "burst_datagrams", "burst_published", "k4_extra_fields"):
             agg[k] += sample.get(k) or 0
+        for k in ("burst_sent", "burst_received", "burst_decoded"):
+            if sample.get(k):
+                agg.setdefault(k, {p: 0 for p in PROTOS})
+                for p in PROTOS:
+                    agg[k][p] += sample[k].get(p, 0)
         for k, src in (("vmhwm_kb_max", "vmhwm_kb"), ("total_alloc_max", "total_alloc"), ("probe_latency_s_max", "probe_latency_s"),
                        ("stream_s_max", "stream_s"), ("udp_queue_peak", "udp_queue_peak")):
             agg[k] = max(agg[k], sample.get(src) or 0)
